@@ -263,6 +263,7 @@ func init() {
 				}
 			}
 		}
+		panicRounds(rep, distinct)
 		rep.Distinct = len(distinct)
 	}
 }
